@@ -41,11 +41,20 @@ struct upump_sim_mgr {
     uint32_t spurious, late;
     bool spurious_shared_only;
     bool fifo;
+    uint64_t horizon;           /* a timer further away than this is never waited for */
     struct upump_common_mgr common_mgr;
     uint8_t upool_extra[];
 };
 UBASE_FROM_TO(upump_sim_mgr, upump_mgr, upump_mgr, common_mgr.mgr)
 UBASE_FROM_TO(upump_sim_mgr, urefcount, urefcount, urefcount)
+
+/* a date so far away that now + delay does not fit is "never", not a date in
+ * the past (libev counts in floating-point seconds and simply waits) */
+static uint64_t date_after(uint64_t delay)
+{
+    uint64_t now = sim_now();
+    return delay > UINT64_MAX - 1 - now ? UINT64_MAX - 1 : now + delay;
+}
 
 static void observe(struct upump *upump, enum upump_sim_event ev, bool status)
 {
@@ -112,7 +121,7 @@ static void upump_sim_real_start(struct upump *upump, bool status)
     struct upump_sim *p = upump_sim_from_upump(upump);
     observe(upump, UPUMP_SIM_REAL_START, status);
     if (p->event == UPUMP_TYPE_TIMER && !p->active)
-        p->deadline = sim_now() + p->after;
+        p->deadline = date_after(p->after);
     p->active = true;
     p->active_status = status;
     p->spent = false;
@@ -135,9 +144,9 @@ static void upump_sim_real_restart(struct upump *upump, bool status)
     /* like upump_ev: an active repeating timer counts `repeat` from now,
      * anything else is (re)armed with `after` */
     if (p->active && !p->spent && p->repeat)
-        p->deadline = sim_now() + p->repeat;
+        p->deadline = date_after(p->repeat);
     else
-        p->deadline = sim_now() + p->after;
+        p->deadline = date_after(p->after);
     p->active = true;
     p->active_status = status;
     p->spent = false;
@@ -307,11 +316,14 @@ static int upump_sim_mgr_run(struct upump_mgr *mgr, struct umutex *mutex)
             }
             /* no simulated thread: nobody else can make a descriptor
              * readable, only time can pass */
-            if (next_deadline == UINT64_MAX) {
+            uint64_t now = sim_now();
+            if (next_deadline == UINT64_MAX ||
+                (sim_mgr->horizon && next_deadline > now && next_deadline - now > sim_mgr->horizon)) {
+                /* nothing to wait for (a timer armed for a date beyond the
+                 * horizon is as good as never: the clock is not moved there) */
                 ret = UBASE_ERR_BUSY;
                 break;
             }
-            uint64_t now = sim_now();
             if (next_deadline > now)
                 sim_advance(next_deadline - now);
             if (sim_mgr->late && sim_coin(sim_mgr->late, 1024)) {
@@ -405,6 +417,11 @@ void upump_sim_mgr_set_faults(struct upump_mgr *mgr, uint32_t spurious_per1024,
 {
     upump_sim_mgr_from_upump_mgr(mgr)->spurious = spurious_per1024;
     upump_sim_mgr_from_upump_mgr(mgr)->late = late_per1024;
+}
+
+void upump_sim_mgr_set_horizon(struct upump_mgr *mgr, uint64_t ticks)
+{
+    upump_sim_mgr_from_upump_mgr(mgr)->horizon = ticks;
 }
 
 void upump_sim_mgr_set_fifo(struct upump_mgr *mgr, bool on)
